@@ -1,6 +1,6 @@
 (* Graph/NeedsProofs.v — the rule-level theorems of C18 over the model
    Graph/Needs.v, from the graph-level results of Graph/DfsProofs.v. *)
-From AL Require Import Base.Str Base.AList Graph.Dfs Graph.Needs Graph.DfsProofs.
+From AL Require Import Base.Str Base.AList Out.StableSort Graph.Dfs Graph.Needs Graph.DfsProofs.
 
 Definition is_cycle_diag (d : diag) : bool := match d with DCycle _ _ => true | _ => false end.
 Definition is_missing_diag (d : diag) : bool := match d with DMissing _ _ _ => true | _ => false end.
@@ -172,9 +172,11 @@ Proof.
   - apply succ_of_closed.
   - intros a b. apply is_before_asym.
   - intros y s n. apply is_before_ntrans.
-  - intros v. split; intros H.
-    + eapply Permutation_in; [exact P|exact H].
-    + eapply Permutation_in; [apply Permutation_sym; exact P|exact H].
+  - assert (P2 : Permutation (sort_nodes m ord) (keys m)).
+    { eapply Permutation_trans; [apply Permutation_sym; apply ssort_perm|exact P]. }
+    intros v. split; intros H.
+    + eapply Permutation_in; [exact P2|exact H].
+    + eapply Permutation_in; [apply Permutation_sym; exact P2|exact H].
 Qed.
 
 (* ---- resolution of references ------------------------------------------------------ *)
